@@ -277,8 +277,27 @@ func (fx *FX) closeLoop(fr *frame, li *loopInfo, from *ssa.BasicBlock, st *State
 	}
 	env := fx.newEnv(fr, st)
 	fx.addLoopNames(fr, env, b)
+	// value of "$i" at the loop header (the index just processed) for range loops
+	var iPrev *Val
+	for phi, v := range saved {
+		if phi.Comment == "rangeindex" {
+			one := BVLit(1, bvWidth(v.T.Sort))
+			t := bvbin("bvadd", v.T, one)
+			t.Signed = true
+			iPrev = &Val{T: t, Typ: phi.Type()}
+		}
+	}
 	for j, cl := range fx.loopClauses(fr, li, "invariant") {
-		g := fx.evalBool(env, cl.Expr)
+		ex := cl.Expr
+		if iPrev != nil {
+			if split, ok := splitRangeQuant(fx.e.CS, ex); ok {
+				// forall v :: .. v < $i .. ==> B  is proved as  (forall v :: .. v < $iprev .. ==> B) && B[v := $iprev];
+				// this uses  v < n+1 <==> v < n || v == n  for n = $iprev, valid because $iprev is below a slice length
+				ex = split
+				env.names["$iprev"] = *iPrev
+			}
+		}
+		g := fx.evalBool(env, ex)
 		fx.oblige(st, "inv-keep", fmt.Sprintf("%s.keep#%d%s", label, j+1, lbl(cl)), cl.Text, g, from.Instrs[len(from.Instrs)-1].Pos(), cl.Props)
 	}
 	for _, ai := range fx.autoInvariants(fr, b) {
@@ -501,4 +520,113 @@ func (fx *FX) frameFact(st *State, k string) Term {
 		return True
 	}
 	return T(fmt.Sprintf("(forall ((q_r Int)) (=> (and (<= 0 q_r) (< q_r %s)) (= (select %s q_r) (select %s q_r))))", alloc0.S, e1.S, e0.S), SBool)
+}
+
+// expandMacros expands macro calls everywhere in e.
+func expandMacros(cs *Contracts, e Expr) Expr {
+	switch t := e.(type) {
+	case *ECall:
+		if m, ok := cs.Macros[t.Fn]; ok && len(m.Params) == len(t.Args) {
+			sub := map[string]Expr{}
+			for i, p := range m.Params {
+				sub[p] = expandMacros(cs, t.Args[i])
+			}
+			return expandMacros(cs, substExpr(m.Expr, sub))
+		}
+		n := &ECall{Fn: t.Fn}
+		for _, a := range t.Args {
+			n.Args = append(n.Args, expandMacros(cs, a))
+		}
+		return n
+	case *EUnary:
+		return &EUnary{Op: t.Op, X: expandMacros(cs, t.X)}
+	case *EBinary:
+		return &EBinary{Op: t.Op, X: expandMacros(cs, t.X), Y: expandMacros(cs, t.Y)}
+	case *EIndex:
+		return &EIndex{X: expandMacros(cs, t.X), I: expandMacros(cs, t.I)}
+	case *EField:
+		return &EField{X: expandMacros(cs, t.X), F: t.F}
+	case *EQuant:
+		return &EQuant{All: t.All, Vars: t.Vars, Sorts: t.Sorts, Body: expandMacros(cs, t.Body)}
+	case *ESlice:
+		n := &ESlice{X: expandMacros(cs, t.X)}
+		if t.Lo != nil {
+			n.Lo = expandMacros(cs, t.Lo)
+		}
+		if t.Hi != nil {
+			n.Hi = expandMacros(cs, t.Hi)
+		}
+		return n
+	}
+	return e
+}
+
+func conjuncts(e Expr) []Expr {
+	if b, ok := e.(*EBinary); ok && b.Op == "&&" {
+		return append(conjuncts(b.X), conjuncts(b.Y)...)
+	}
+	return []Expr{e}
+}
+
+func conj(es []Expr) Expr {
+	if len(es) == 0 {
+		return &ELit{Kind: "bool", B: true}
+	}
+	r := es[0]
+	for _, e := range es[1:] {
+		r = &EBinary{Op: "&&", X: r, Y: e}
+	}
+	return r
+}
+
+// splitRangeQuant rewrites top-level conjuncts of the form
+//   forall v :: G && v < $i ==> B     into    (forall v :: G && v < $iprev ==> B) && (G ==> B)[v := $iprev]
+func splitRangeQuant(cs *Contracts, e Expr) (Expr, bool) {
+	e = expandMacros(cs, e)
+	changed := false
+	var out []Expr
+	for _, c := range conjuncts(e) {
+		q, ok := c.(*EQuant)
+		if !ok || !q.All || len(q.Vars) != 1 {
+			out = append(out, c)
+			continue
+		}
+		imp, ok := q.Body.(*EBinary)
+		if !ok || imp.Op != "==>" {
+			out = append(out, c)
+			continue
+		}
+		v := q.Vars[0]
+		gs := conjuncts(imp.X)
+		found := -1
+		for i, g := range gs {
+			if b, ok := g.(*EBinary); ok && b.Op == "<" {
+				if x, ok := b.X.(*EIdent); ok && x.Name == v {
+					if y, ok := b.Y.(*EIdent); ok && y.Name == "$i" {
+						found = i
+					}
+				}
+			}
+		}
+		if found < 0 {
+			out = append(out, c)
+			continue
+		}
+		changed = true
+		prevGs := append([]Expr(nil), gs...)
+		prevGs[found] = &EBinary{Op: "<", X: &EIdent{Name: v}, Y: &EIdent{Name: "$iprev"}}
+		out = append(out, &EQuant{All: true, Vars: q.Vars, Sorts: q.Sorts, Body: &EBinary{Op: "==>", X: conj(prevGs), Y: imp.Y}})
+		rest := append(append([]Expr(nil), gs[:found]...), gs[found+1:]...)
+		sub := map[string]Expr{v: &EIdent{Name: "$iprev"}}
+		out = append(out, substExpr(&EBinary{Op: "==>", X: conj(rest), Y: imp.Y}, sub))
+	}
+	return conj(out), changed
+}
+
+// addAllLoopNames exposes the loop variables of every loop (current values) to postconditions, so
+// that existential witnesses can name them.
+func (fx *FX) addAllLoopNames(fr *frame, env *Env) {
+	for h := range fr.loopOrd {
+		fx.addLoopNames(fr, env, h)
+	}
 }
